@@ -388,7 +388,7 @@ fn items(tier: Tier) -> &'static Vec<Item> {
             for (bursts, fb) in &burst_sets {
                 let total: usize = bursts.iter().sum();
                 let bound = if thorough {
-                    if total <= 5 { 2 } else { 1 }
+                    if total <= 2 { 3 } else if total <= 6 { 2 } else { 1 }
                 } else if total <= 3 {
                     2
                 } else if total <= 6 {
@@ -400,9 +400,10 @@ fn items(tier: Tier) -> &'static Vec<Item> {
             }
         }
         for n in [1usize, 4, 5, 6, 8] {
-            v.push(Item::Srv(SrvScenario { n, split: None }, Mode::Strict, if n <= 5 { 1 } else { 0 }));
+            let sb = if thorough && n <= 5 { 2 } else if n <= 5 || (thorough && n <= 8) { 1 } else { 0 };
+            v.push(Item::Srv(SrvScenario { n, split: None }, Mode::Strict, sb));
             if n > 4 {
-                v.push(Item::Srv(SrvScenario { n, split: Some(4) }, Mode::Strict, if n <= 5 { 1 } else { 0 }));
+                v.push(Item::Srv(SrvScenario { n, split: Some(4) }, Mode::Strict, sb));
             }
         }
         v.push(Item::Srv(SrvScenario { n: 32, split: None }, Mode::Strict, 0));
@@ -456,7 +457,7 @@ impl Check for C08 {
     fn rule(&self, tier: Tier) -> String {
         format!(
             "(a) real TaskPool: initial state {{fresh, all 4 idle, 1/3/4 workers busy for ever, surplus workers idle in their timed wait, surplus workers whose 5 s idle timeout is due, surplus workers retired after 6 s of idleness}} x dispatch pattern {{one burst of 1,2,3,4,5,6,8 tasks; two bursts (1,4) (4,1) (2,3) (4,4) (3,3) separated by quiescence, the first burst's tasks finishing in between or not}}; every task records its start and then stays open on a harness gate; (b) real Server with N in {{1,4,5,6,8,32{}}} keep-alive connections sending one request each and staying open, in one burst or two; {} scenarios, explored for all schedules with at most {} deviations (strict costs), window = the burst; oracle at quiescence: every dispatched task has started / every connection has its response while all others are still open, each task started once, one open task per worker; non-trivial = all",
-            if tier == Tier::Thorough { ",64" } else { "" }, items(tier).len(), if tier == Tier::Thorough { "2 (<= 5 tasks) / 1 (pool), 1 (server N<=5) / 0" } else { "2 (<= 3 tasks) / 1 (<= 6 tasks) / 0 (pool), 1 (server N<=5) / 0" }
+            if tier == Tier::Thorough { ",64" } else { "" }, items(tier).len(), if tier == Tier::Thorough { "3 (<= 2 tasks) / 2 (<= 6 tasks) / 1 (pool), 2 (server N<=5) / 1 (N<=8) / 0" } else { "2 (<= 3 tasks) / 1 (<= 6 tasks) / 0 (pool), 1 (server N<=5) / 0" }
         )
     }
     fn replay(&self, replay: &Value, acc: &mut Acc) {
